@@ -88,10 +88,17 @@ func Ref(p any) uintptr {
 		return 0
 	}
 	e := v.Elem()
-	if e.Kind() == reflect.Interface && !e.IsNil() {
-		d := e.Elem()
-		if d.Kind() == reflect.Ptr {
-			return d.Pointer()
+	switch e.Kind() {
+	case reflect.Interface:
+		if !e.IsNil() {
+			if d := e.Elem(); d.Kind() == reflect.Ptr {
+				return d.Pointer()
+			}
+		}
+	case reflect.Ptr:
+		// a field of type *sync.RWMutex: the mutex it points to
+		if !e.IsNil() {
+			return e.Pointer()
 		}
 	}
 	return v.Pointer()
